@@ -546,6 +546,8 @@ def try_symbolic_dictcomp(interp, e, env):   # noqa: F811
         return None
     g = e.generators[0]
     it = interp.ev(g.iter, env)
+    if isinstance(it, SymSubSet):
+        return _dictcomp_over_set(interp, e, env, g, it)
     if not isinstance(it, SymMapView) or it.kind != 'items':
         if isinstance(it, (SymMap, SymMapView)):
             raise Unsupported("dict comprehension over keys/values of a symbolic map")
@@ -682,8 +684,19 @@ class NameDictValues:
         raise Unsupported("iteration over the values of a name dictionary of arbitrary size")
 
     def sym_anyall(self, interp, gen, g, is_any, node):
-        # all(isinstance(elem, (Container, Plate)) for elem in self.results.values()): values are opaque here
-        return fresh('allvalues', BS)
+        # all(isinstance(elem, (Container, Plate)) for elem in self.results.values()): the values stored during this run
+        # are checked; the arbitrary earlier ones are Containers/Plates by the class invariant of Recipe.results
+        from .interp import Env
+        if is_any or g.ifs:
+            return fresh('anyvalues', BS)
+        ok = True
+        for kt, v in self.d.known:
+            sc = Env(gen.env)
+            interp.assign(g.target, v, sc)
+            r = interp.ev(gen.node.elt, sc)
+            if r is not True:
+                ok = False
+        return ok if self.d.known else fresh('allvalues', BS)
 
 
 class NameSet:
@@ -802,3 +815,149 @@ class SymListSlice:
 
     def sym_reversed(self, interp, node=None):
         return self
+
+
+def _dictcomp_over_set(interp, e, env, g, sset):
+    """{x: f(x) for x in <symbolic set of substances>}: a map with exactly that key set."""
+    from .interp import Env, MergeAbort
+    x = _z3.Const(f'x!ds{next(V._ctr)}', Sub)
+    sc = Env(env)
+    interp.solver.push()
+    nh = len(interp.hyps)
+    no = len(interp.obls)
+    interp.pure += 1
+    keyerr = None
+    try:
+        interp.assume(sset.mem[x])
+        interp.assume(sub_wf_term(x))
+        interp.assign(g.target, SubV(x), sc)
+        if g.ifs:
+            raise MergeAbort("filtered comprehension over a symbolic set")
+        kv = interp.ev(e.key, sc)
+        if not (isinstance(kv, SubV) and kv.term.eq(x)):
+            raise MergeAbort("key is not the iterated element")
+        try:
+            vv = interp.ev(e.value, sc)
+        except MergeAbort as ex:
+            # typically m[x] for a map m that need not contain x: the real code would raise KeyError there
+            raise Unsupported(f"dict comprehension over a symbolic set: {ex}")
+        if not is_num(vv):
+            raise MergeAbort("non-numeric value")
+    except MergeAbort as ex:
+        raise Unsupported(f"dict comprehension over a symbolic set: {ex}")
+    except Raised as ex:
+        raise Unsupported(f"dict comprehension over a symbolic set raises {ex.cls}")
+    finally:
+        interp.pure -= 1
+        del interp.hyps[nh:]
+        del interp.hyp_tags[nh:]
+        del interp.obls[no:]
+        interp.solver.pop()
+    amt = _z3.Lambda([x], _z3.If(sset.mem[x], real(vv), _z3.RealVal(0)))
+    mem = _z3.Lambda([x], sset.mem[x])
+    return SymMap(amt, mem, True)
+
+
+def pointwise_update_loop(interp, st, env, sset):
+    """for x in <symbolic set>: d[x] = <expr(x, d.get(x, 0))>  — summarised as a pointwise map update."""
+    import ast as _a
+    from .interp import MergeAbort
+    if st.orelse or len(st.body) != 1 or not isinstance(st.body[0], _a.Assign) or len(st.body[0].targets) != 1:
+        return False
+    tgt = st.body[0].targets[0]
+    if not (isinstance(tgt, _a.Subscript) and isinstance(st.target, _a.Name) and isinstance(tgt.slice, _a.Name)
+            and tgt.slice.id == st.target.id):
+        return False
+    d = interp.ev(tgt.value, env)
+    if isinstance(d, dict) and not d:
+        d = SymMap(_z3.K(Sub, _z3.RealVal(0)), _z3.K(Sub, _z3.BoolVal(False)), True)
+        interp.assign(tgt.value, d, env)
+    if not isinstance(d, SymMap):
+        return False
+    x = _z3.Const(f'x!pu{next(V._ctr)}', Sub)
+    interp.solver.push()
+    nh = len(interp.hyps)
+    interp.pure += 1
+    try:
+        interp.assume(sset.mem[x])
+        interp.assume(sub_wf_term(x))
+        env.set(st.target.id, SubV(x))
+        vv = interp.ev(st.body[0].value, env)
+        if not is_num(vv):
+            raise MergeAbort("non-numeric")
+    except (MergeAbort, Raised):
+        return False
+    finally:
+        interp.pure -= 1
+        del interp.hyps[nh:]
+        del interp.hyp_tags[nh:]
+        interp.solver.pop()
+    d.amt = _z3.Lambda([x], _z3.If(sset.mem[x], real(vv), d.amt[x]))
+    d.mem = _z3.Lambda([x], _z3.Or(sset.mem[x], d.mem[x]))
+    env.set(st.target.id, Undefined(st.target.id))
+    return True
+
+
+def _sss_loop(self, interp, st, env):
+    if pointwise_update_loop(interp, st, env, self):
+        return
+    raise Unsupported("loop over a set of substances of arbitrary size (not a pointwise update)")
+
+
+SymSubSet.sym_loop = _sss_loop
+
+
+def conditional_items_update_loop(interp, st, env, view):
+    """for k, a in m.items(): [if <cond(k)>:] d[k] = <expr(k, a, d.get(k, 0))>   — a pointwise (conditional) update of
+    another map d by the items of m."""
+    import ast as _a
+    from .interp import MergeAbort
+    if st.orelse or len(st.body) != 1 or view.kind != 'items':
+        return False
+    inner = st.body[0]
+    cond_node = None
+    if isinstance(inner, _a.If) and not inner.orelse and len(inner.body) == 1:
+        cond_node, inner = inner.test, inner.body[0]
+    if not (isinstance(inner, _a.Assign) and len(inner.targets) == 1 and isinstance(inner.targets[0], _a.Subscript)):
+        return False
+    tgt = inner.targets[0]
+    if not (isinstance(st.target, _a.Tuple) and len(st.target.elts) == 2 and isinstance(st.target.elts[0], _a.Name)
+            and isinstance(tgt.slice, _a.Name) and tgt.slice.id == st.target.elts[0].id):
+        return False
+    d = interp.ev(tgt.value, env)
+    if isinstance(d, dict) and not d:
+        d = SymMap(_z3.K(Sub, _z3.RealVal(0)), _z3.K(Sub, _z3.BoolVal(False)), True)
+        interp.assign(tgt.value, d, env)
+    if not isinstance(d, SymMap) or d is view.m:
+        return False
+    m = view.m
+    x = _z3.Const(f'x!cu{next(V._ctr)}', Sub)
+    interp.solver.push()
+    nh = len(interp.hyps)
+    interp.pure += 1
+    try:
+        interp.assume(m.mem[x])
+        interp.assume(sub_wf_term(x))
+        view.bind_generic(interp, st.target, env, x, m.amt[x])
+        cond = True
+        if cond_node is not None:
+            cond = interp.ev(cond_node, env)
+            if not (isinstance(cond, bool) or is_symbool(cond)):
+                raise MergeAbort("non-boolean condition")
+        vv = interp.ev(inner.value, env)
+        if not is_num(vv):
+            raise MergeAbort("non-numeric")
+    except (MergeAbort, Raised):
+        return False
+    finally:
+        interp.pure -= 1
+        del interp.hyps[nh:]
+        del interp.hyp_tags[nh:]
+        interp.solver.pop()
+    hit = _z3.And(m.mem[x], boolz(cond))
+    d.amt = _z3.Lambda([x], _z3.If(hit, real(vv), d.amt[x]))
+    d.mem = _z3.Lambda([x], _z3.Or(hit, d.mem[x]))
+    for el in st.target.elts:
+        if isinstance(el, _a.Name):
+            env.set(el.id, Undefined(el.id))
+    return True
